@@ -168,6 +168,35 @@ func runC17(c *Ctx, w *World, r *Report) {
 			bad = fmt.Sprintf("expected one boundary append and one prefix append in the closure, found %d and %d", nb, np)
 		}
 		r.Check(bad == "", "R-SHARDSIZE", "sigbits.ShardByPrefix|emit", w.Pos(dfs.Pos()), bad, "append(prefixes, min); append(keyCnts, e) on the edge e-s <= maxSize")
+		// progress: a range is split further only if it holds MORE than maxSize keys, hence (maxSize >= 1) at least two:
+		// a single-key range that is not emitted has no split point and recurses on itself for ever (maxSize = 1)
+		badG := ""
+		nrec := 0
+		eachInstr(dfs, func(ins ssa.Instruction) {
+			call, ok := ins.(*ssa.Call)
+			if !ok {
+				return
+			}
+			// the recursive call goes through the captured variable holding the closure
+			isRec := false
+			if u, ok := call.Common().Value.(*ssa.UnOp); ok && u.Op == token.MUL {
+				if fv, ok := u.X.(*ssa.FreeVar); ok && fv.Name() == "dfs" {
+					isRec = true
+				}
+			}
+			if call.Common().StaticCallee() == dfs {
+				isRec = true
+			}
+			if !isRec {
+				return
+			}
+			nrec++
+			bd := fa.BoundsAt(call.Block(), eL.Sub(sL).Sub(fa.Lin(loadOfCell(dfs, "maxSize"))))
+			if !(bd.HasLo && bd.Lo >= 1) {
+				badG = fmt.Sprintf("the range is split further at %s on an edge where (e-s) - maxSize is only known to be in %s: with maxSize = 1 a single-key range is never emitted and the recursion does not terminate", w.InstrPos(ins), bd)
+			}
+		})
+		r.Check(badG == "" && nrec > 0, "R-SHARDSIZE", "sigbits.ShardByPrefix|progress", w.Pos(dfs.Pos()), badG, fmt.Sprintf("%d recursive calls, each on the edge (e-s) - maxSize >= 1", nrec))
 		r.Check(badL == "", "R-LCP", "sigbits.ShardByPrefix", w.Pos(dfs.Pos()), badL, "min starts at len(keys[s]); candidates firstDiffs[i]>>3, i in [s, e-1)")
 
 		// parent: initial boundary 0 and dfs(0, n)
@@ -219,6 +248,16 @@ func runC17(c *Ctx, w *World, r *Report) {
 			badP = "firstDiffs is not FirstDiffBits(keys)"
 		}
 		r.Check(badP == "", "R-SHARDSIZE", "sigbits.ShardByPrefix|start", w.Pos(fn.Pos()), badP, "keyCnts = [0]; dfs(0, len(firstDiffs)+1)")
+		// what is returned is what the recursion collected, on every exit (a shortcut that builds its own answer is outside every rule above)
+		badRet := ""
+		nret := 0
+		for _, ret := range returnsOf(fn) {
+			nret++
+			if len(ret.Results) != 2 || !isCellLoad(ret.Results[0], "prefixes") || !isCellLoad(ret.Results[1], "keyCnts") {
+				badRet = fmt.Sprintf("the return at %s does not return the prefix lengths and boundaries the recursion collected", w.InstrPos(ret))
+			}
+		}
+		r.Check(badRet == "" && nret > 0, "R-SHARDSIZE", "sigbits.ShardByPrefix|result", w.Pos(fn.Pos()), badRet, fmt.Sprintf("%d exits, each returning (prefixes, keyCnts)", nret))
 	}
 	// ---- R-SPLIT
 	{
